@@ -287,6 +287,34 @@ func (v *VerifCA) Enqueue(data []byte) {
 
 func (v *VerifCA) Destroy() { v.c.destroyImpl(errors.New("verif: harness gave up")) }
 
+// HandleBatch queues the datagrams the way the transport does (handlePacket) and then lets the
+// connection work through its receive queue once, exactly as the run loop does (handlePackets).
+// remaining = datagrams still queued afterwards.
+func (v *VerifCA) HandleBatch(datagrams [][]byte) (res VerifCAResult, remaining int) {
+	defer func() {
+		if r := recover(); r != nil {
+			res.Err = fmt.Sprintf("panic:%v", r)
+		}
+	}()
+	for _, d := range datagrams {
+		v.Enqueue(d)
+	}
+	processed, err := v.c.handlePackets()
+	res.Processed = processed
+	res.Err = verifCAErrClass(err)
+	if ce := v.c.closeErr.Load(); ce != nil {
+		res.Closed = verifCAErrClass(ce.err)
+		if res.Closed == "" {
+			res.Closed = "nil"
+		}
+	}
+	res.Events = v.events()
+	v.c.receivedPacketMx.Lock()
+	remaining = v.c.receivedPackets.Len()
+	v.c.receivedPacketMx.Unlock()
+	return res, remaining
+}
+
 // HandleTP runs the peer's transport parameters (only the connection-ID fields matter here)
 // through handleTransportParameters, as the TLS stack would on EventReceivedTransportParameters.
 func (v *VerifCA) HandleTP(iscid, odcid []byte, hasRSCID bool, rscid []byte) (cls string) {
